@@ -27,12 +27,14 @@ use std::sync::Arc;
 pub enum CForm {
     Slice,
     Iter,
+    /// update_by_iter with an iterator whose size hint is inexact (lower 0, upper an over-estimate)
+    IterInexact,
     AddSlice,
     AddArray,
     Byte,
     AddByte,
 }
-const CFORMS: [CForm; 6] = [CForm::Slice, CForm::Iter, CForm::AddSlice, CForm::AddArray, CForm::Byte, CForm::AddByte];
+const CFORMS: [CForm; 7] = [CForm::Slice, CForm::Iter, CForm::IterInexact, CForm::AddSlice, CForm::AddArray, CForm::Byte, CForm::AddByte];
 
 fn feed_c(g: &mut Generator, d: &[u8], f: CForm) {
     match f {
@@ -41,6 +43,10 @@ fn feed_c(g: &mut Generator, d: &[u8], f: CForm) {
         }
         CForm::Iter => {
             g.update_by_iter(d.iter().copied());
+        }
+        CForm::IterInexact => {
+            let doubled: Vec<(bool, u8)> = d.iter().flat_map(|&b| [(true, b), (false, !b)]).collect();
+            g.update_by_iter(doubled.iter().filter(|x| x.0).map(|x| x.1));
         }
         CForm::AddSlice => {
             *g += d;
@@ -326,7 +332,7 @@ pub fn run(ctx: &Ctx) -> Report {
 
     // ---- regime 1: full closure
     let mut xs: Vec<(String, Vec<u8>, u64, Vec<usize>, Vec<CForm>)> = vec![];
-    let f3 = vec![CForm::Slice, CForm::Iter, CForm::Byte];
+    let f3 = vec![CForm::Slice, CForm::IterInexact, CForm::Byte];
     let f6 = CFORMS.to_vec();
     xs.push(("hello".into(), b"Hello, World!\n".to_vec(), 0, full_menu.clone(), f6.clone()));
     xs.push(("W1^12 Z W0^3 U".into(), { let mut v = corpus::repeat(&corpus::W[1], 12); v.extend(corpus::Z); v.extend(corpus::repeat(&corpus::W[0], 3)); v.extend(corpus::U); v }, 0, full_menu.clone(), f6.clone()));
